@@ -117,7 +117,7 @@ def op_menu(sh, started):
     return m
 
 
-def run_execution(sh, ch, nops, maxdev):
+def run_execution(sh, ch, nops, maxdev, opset=None):
     from robotpy_ext.autonomous.stateful_autonomous import StatefulAutonomous, state, timed_state
 
     env.nt_maybe_reset(2000)
@@ -135,6 +135,8 @@ def run_execution(sh, ch, nops, maxdev):
     err = None
     for k in range(nops):
         menu = op_menu(sh, started)
+        if opset is not None and started:
+            menu = [o for o in menu if list(o) in opset or tuple(o) in opset]
         op = menu[ch.choose(len(menu), "op")]
         ctx.events = []
         ctx.acts = []
@@ -208,19 +210,21 @@ def work(item):
     nops, maxdev = item["nops"], item["maxdev"]
     count = [0]
 
+    opset = item.get("opset")
+
     def run(ch):
-        trace, err = run_execution(sh, ch, nops, maxdev)
+        trace, err = run_execution(sh, ch, nops, maxdev, opset)
         res.executions += 1
         res.checks += len(trace)
         res.transitions += len(trace)
         if err:
             periods = sum(1 for s in trace if s["op"][0] == "on_enable")
             sig = f"{err[0]}:{'first-period' if periods <= 1 else 'later-period'}"
-            res.violation(sig, f"shape {sh['name']} step {len(trace)-1} {trace[-1]['op']}: {err[1]}\n" + fmt(trace), dict(engine="sa", shape=sh, choices=list(ch.choices), nops=nops, maxdev=maxdev, trace=trace, source=class_source(sh)))
+            res.violation(sig, f"shape {sh['name']} step {len(trace)-1} {trace[-1]['op']}: {err[1]}\n" + fmt(trace), dict(engine="sa", shape=sh, choices=list(ch.choices), nops=nops, maxdev=maxdev, opset=opset, trace=trace, source=class_source(sh)))
         res.outcome(core.stable_hash([[s["op"], s["real"]] for s in trace]))
         count[0] += 1
         if count[0] % 1999 == item["seed"] % 1999:
-            t2, e2 = run_execution(sh, core.Chooser(ch.choices), nops, maxdev)
+            t2, e2 = run_execution(sh, core.Chooser(ch.choices), nops, maxdev, opset)
             if [s["real"] for s in t2] != [s["real"] for s in trace]:
                 raise core.HarnessError(f"non-deterministic replay {sh['name']} {ch.choices}")
             res.determinism_reruns += 1
@@ -246,18 +250,29 @@ def main(tier, seed):
         n2 = len(op_menu(sh, True))
         for r in range(n2):
             items.append(dict(shape=sh, nops=nops, maxdev=maxdev, roots=[(0, r)], seed=seed))
+    # dashboard pass: deeper, restricted alphabet (several periods with dashboard edits in between, passive states)
+    dash_n = 8 if tier == "quick" else 10
+    for sh in shapes():
+        if sh["name"] not in ("chain2", "single", "loop2", "untimed-first"):
+            continue
+        timed = [st["name"] for st in sh["states"] if st["dur"] is not None]
+        opset = [["iter", 1], ["iter", 2], ["on_enable", "zero"], ["knob"], ["setdur", timed[0]]]
+        for r in range(len(opset)):
+            for r2 in range(len(opset)):
+                items.append(dict(shape=sh, nops=dash_n, maxdev=0, roots=[(0, r, r2)] if r > 1 else [(0, r, 0, r2)], seed=seed, opset=opset))
     res = core.Result()
     for d in core.parallel("mc.props.c15", "work", items, seed=seed):
         res.merge(d)
     res.states = len(shapes()) * 12
-    res.bounds.update(ops=nops, deviation_bound=maxdev, shapes=[s["name"] for s in shapes()], tick="1/64 s", tm_steps=[1, 2, 3, "long"])
+    res.bounds.update(dashboard_pass_ops=dash_n, ops=nops, deviation_bound=maxdev, shapes=[s["name"] for s in shapes()], tick="1/64 s", tm_steps=[1, 2, 3, "long"])
     rule = (
         "for each generated StatefulAutonomous subclass (chains, loops, branches, self loop, zero durations; fresh class per execution): every "
         "sequence of `ops` operations starting with on_enable from {on_iteration after tm += 1/2/3/long ticks, on_enable with tm restarted at 0, "
         "on_enable with tm continuing, on_disable, dashboard edit of a state duration, dashboard edit of a registered variable} with at most "
         "`deviation_bound` non-trivial in-state actions (next_state to any state incl. itself, done), executed on the real class and on a reference "
         "model whose periods are independent by construction (prefix-replay DFS). Compared per iteration: which state ran, tm, state_tm, initial_call, "
-        "registered variable value."
+        "registered variable value. A second, deeper pass (`dashboard_pass_ops` operations, passive states) restricts the alphabet to on_enable / on_iteration / "
+        "dashboard edits so that edits between several autonomous periods are covered."
     )
     return core.finish(PID, tier, seed, res, time.time() - t0, rule, ["tm values are multiples of 1/64 s passed explicitly to on_iteration (exact floats)", "on_iteration before the first on_enable is outside the alphabet (documented ValueError)"])
 
@@ -265,7 +280,7 @@ def main(tier, seed):
 def replay(path):
     core.bind_repo()
     r = json.load(open(path))["replay"]
-    trace, err = run_execution(r["shape"], core.Chooser(r["choices"]), r["nops"], r["maxdev"])
+    trace, err = run_execution(r["shape"], core.Chooser(r["choices"]), r["nops"], r["maxdev"], r.get("opset"))
     print(class_source(r["shape"]))
     print(fmt(trace))
     print("DISAGREEMENT:" if err else "ok", err or "")
